@@ -130,11 +130,13 @@ Definition run_phase (K : skind) (st : store) (ph : phase) : result store * val 
   let '(specs, inputs, sched, logging) := ph in
   let chain := rev (map mk_step specs) in
   let singles := VL (map (fun m => show_value (call chain m)) inputs) in
+  (* list(app.as_completed(inputs)) of the composed app without writer *)
+  let asc := VL (map (fun it => show_value (result_data (source_wrapped chain it))) (proxy_input inputs)) in
   match apply_to K chain st inputs sched logging with
-  | Exc e => (Exc e, VL [VE e; singles])
+  | Exc e => (Exc e, VL [VE e; singles; asc])
   | Ok st' =>
       let todo := match collect K st [] inputs with Ok t => map snd t | Exc _ => [] end in
-      (Ok st', VL (show_store st' (dedup_last (st_nc st')) ++ [calls_of chain todo; singles]))
+      (Ok st', VL (show_store st' (dedup_last (st_nc st')) ++ [calls_of chain todo; singles; asc]))
   end.
 
 Fixpoint run_phases (K : skind) (st : store) (phs : list phase) : list val :=
